@@ -204,3 +204,18 @@ Proof.
       rewrite H0. lia. }
     rewrite Hz, dot_vscale. lia.
 Qed.
+
+(* ---- the whole resolution (repaired F5 + F5b): base pointer + strides reproduce the access map ------ *)
+Theorem resolve_exact f bounds x :
+  linear_on_box f bounds -> in_box x bounds ->
+  resolve_base f (List.length bounds) + dot (resolve f (List.length bounds)) x = f x.
+Proof. intros Hl Hx. unfold resolve_base. rewrite (resolve_linear f bounds Hl x Hx). lia. Qed.
+
+(* before the repair of F5b the constant term was dropped: any static layout offset refutes exactness *)
+Example resolve_without_base_refuted :
+  let f := access_mem (LStrided [1] 5) 8 [[4; 1]] [0] in
+  linear_on_box f [4; 4] /\ resolve_base f 2 = 40 /\ dot (resolve f 2) [1; 1] <> f [1; 1].
+Proof.
+  cbv zeta. split; [|split; [reflexivity|vm_compute; discriminate]].
+  apply (strided_linear_on_box [1] 5 8 [[4; 1]] [0] [4; 4]). repeat constructor.
+Qed.
